@@ -1,6 +1,20 @@
-import CoclsModel.Mutex
-/-! # C07 — property theorems (placeholder while the invariant proofs are being written) -/
+import CoclsModel.MutexProofs
+/-!
+# C07 — coroutine mutex: mutual exclusion, exactly-once grant (property theorems)
+
+Model: `Mutex.lean` (micro-step model of `cocls::mutex`, tied to `mutex.h` by the step-for-step replay of
+`checks/c07.py`).  Proofs: `MutexProofs.lean` (invariant `Inv`, preserved by every activity).
+
+Quantifier of every theorem: **every** configuration `c` (any number of agents, any rounds/flavours/release styles)
+that satisfies the totalisation `c.WF` (`co_await lock()` occurs only in coroutines), and **every** state `s` with
+`Reachable c s`, i.e. every state reached from `init c` by **any** finite sequence of agent activities `(t, a)`
+("agent `a`'s code runs on OS thread `t` up to and including its next atomic operation") each of which is permitted by
+the guard `canRun` — `s.pc a ∉ {parked, done}` and (`s.pc a = blocked → s.flag a`) — an over-approximation of what the
+executor glue `threadStep` can do (`threadStep_is_arun`, `trun_init_reachable`: every schedule of enabled OS threads
+stays inside `Reachable`).  No bound on agents, rounds or run length.
+-/
 namespace Cocls.Mutex
+variable {c : Cfg} {s : State}
 
 /-- `try_lock`/`ready()` is one step and succeeds iff the mutex is free -/
 theorem c07_ready_iff_free (c : Cfg) (s : State) (t a : Nat) (r : Round) (hpc : s.pc a = Pc.top)
@@ -10,6 +24,231 @@ theorem c07_ready_iff_free (c : Cfg) (s : State) (t a : Nat) (r : Round) (hpc : 
   simp only [hpc, hr]
   cases h : s.req with
   | nil => simp [setPc]
-  | cons x xs => cases hf : r.fl <;> simp [setPc, hf]
+  | cons x xs => cases r.fl <;> simp [setPc]
+
+example : (agentStep cfgEx (init cfgEx) 0 0).1.pc 0 = Pc.crit ∧
+    (agentStep cfgEx (arun cfgEx (init cfgEx) [(0,0)]) 1 1).1.pc 1 = Pc.sub Seen.null := by decide
+
+
+/-- **Mutual exclusion.** In every state reachable by guarded agent activities (any number of agents, rounds,
+    flavours, release styles, any interleaving, any assignment of activities to OS threads) at most one agent is an
+    owner. -/
+theorem c07_mutex (hwf : c.WF) (hs : Reachable c s) : ∀ a b, Owner s a → Owner s b → a = b :=
+  (inv_reachable hwf hs).excl
+
+/- after the hand-over of scenario `runB`, 1 is the owner, 0 is not any more, 2 is still queued -/
+example : Reachable cfgEx sB := reachable_of_run _ runB (by decide)
+example : Owner sB 1 ∧ ¬ Owner sB 0 ∧ ¬ Owner sB 2 ∧ sB.queue = [2] := by decide
+/- a blocking waiter is not an owner before its flag is stored -/
+example : Reachable cfgSy sS ∧ Owner sS 0 ∧ ¬ Owner sS 1 ∧ sS.pc 1 = Pc.blocked := ⟨reachable_of_run _ runS (by decide), by decide⟩
+
+/-- the critical-section counter never exceeds one -/
+theorem c07_mutex_incs (hwf : c.WF) (hs : Reachable c s) : s.incs ≤ 1 := by
+  have h := inv_reachable hwf hs
+  by_cases hex : ∃ a, s.pc a = Pc.afterCs
+  · obtain ⟨a, ha⟩ := hex
+    rw [h.incsA a ha]; exact Nat.le_refl 1
+  · rw [h.incsN (fun a ha => hex ⟨a, ha⟩)]; exact Nat.zero_le 1
+
+example : (arun cfgEx (init cfgEx) (runB ++ [(0,1)])).incs = 1 ∧ sB.incs = 0 := by decide
+
+/-- the overlap flag of every critical-section event is false -/
+theorem c07_no_overlap (hwf : c.WF) (hs : Reachable c s) (t a : Nat) (x r : Nat) (ov : Bool)
+    (hev : Ev.cs x r ov ∈ (agentStep c s t a).2.1) : ov = false := by
+  have h := inv_reachable hwf hs
+  obtain ⟨hpc, _, _, hov⟩ := step_cs_event c s t a x r ov hev
+  have : s.incs = 0 := by
+    apply h.incsN
+    intro b hb
+    have := h.excl a b (by simp [Owner, hpc, isOwner]) (by simp [Owner, hb, isOwner])
+    subst this
+    rw [hpc] at hb; cases hb
+  simp [hov, this]
+
+example : (agentStep cfgEx sB 0 1).2.1 = [Ev.cs 1 0 false, Ev.csOp 0 1] := by decide
+
+/-- **Each request is granted exactly once (counting form).** `grants a` + failed `try_lock`s = completed rounds
+    (+ 1 while the agent holds the lock in its current round). -/
+theorem c07_grant_once (hwf : c.WF) (hs : Reachable c s) (a : Nat) :
+    s.grants a + s.fails a = s.round a + (if Holding s a then 1 else 0) ∧ s.grants a ≤ s.round a + 1 := by
+  have h := (inv_reachable hwf hs).gr a
+  refine ⟨h, ?_⟩
+  split at h <;> omega
+
+example : Reachable cfgEx sZ ∧ (sZ.grants 2, sZ.fails 2, sZ.round 2) = (2, 0, 2) ∧ ¬ Holding sZ 2 :=
+  ⟨reachable_of_run _ runZ (by decide), by decide⟩
+example : (sB.grants 1, sB.fails 1, sB.round 1) = (1, 0, 0) ∧ Holding sB 1 := by decide
+example : (sS.grants 2, sS.fails 2, sS.round 2) = (0, 1, 1) := by decide
+
+/-- **Each request `(agent, round)` is granted at most once**; it has been granted or (for `try_lock`) failed exactly
+    once iff the round is completed or the agent currently holds the lock for it. -/
+theorem c07_grant_once_request (hwf : c.WF) (hs : Reachable c s) (a r : Nat) :
+    s.grantReqs.count (a, r) ≤ 1 ∧
+    s.grantReqs.count (a, r) + s.failReqs.count (a, r) = (if r < s.round a ∨ (r = s.round a ∧ Holding s a) then 1 else 0) ∧
+    ((a, r) ∈ s.failReqs → ∃ rd, (c.rounds a)[r]? = some rd ∧ rd.fl = Flavour.try_) := by
+  have h := inv_reachable hwf hs
+  have hg := h.greq a r
+  refine ⟨?_, hg, h.failT a r⟩
+  split at hg <;> omega
+
+example : sZ.grantReqs = [(0, 0), (1, 0), (2, 0), (2, 1)] ∧ sZ.failReqs = [] ∧ sS.failReqs = [(2, 0)] := by decide
+
+theorem c07_grantReqs_nodup (hwf : c.WF) (hs : Reachable c s) : s.grantReqs.Nodup := by
+  rw [List.nodup_iff_count]
+  intro ⟨a, r⟩
+  exact (c07_grant_once_request hwf hs a r).1
+
+example : sB.grantReqs = [(0, 0), (1, 0)] := by decide
+
+/-- at quiescence every configured request has been granted exactly once (or, for `try_lock`, failed) -/
+theorem c07_granted_at_quiescence (hwf : c.WF) (hs : Reachable c s) (a : Nat) (ha : a < c.n) (hd : s.pc a = Pc.done)
+    (r : Nat) (hr : r < (c.rounds a).length) :
+    s.grantReqs.count (a, r) + s.failReqs.count (a, r) = 1 := by
+  have h := inv_reachable hwf hs
+  have := (h.rnd a).2.2 hd ha
+  rw [(c07_grant_once_request hwf hs a r).2.1, if_pos (Or.inl (by omega))]
+
+example : (∀ a, a < 3 → sZ.pc a = Pc.done) ∧ sZ.grantReqs.length = 4 := by decide
+
+/-- every grant leads to exactly one critical-section entry -/
+theorem c07_enter_once (hwf : c.WF) (hs : Reachable c s) (a : Nat) :
+    s.grantLog.count a + (if Entering s a then 1 else 0) = s.grants a :=
+  (inv_reachable hwf hs).glog a
+
+example : sZ.grantLog = [0, 1, 2, 2] ∧ sB.grantLog = [0] ∧ Entering sB 1 := by decide
+
+/-- **A waiting agent is registered exactly once**: a parked coroutine (and a blocked waiter whose flag is not set)
+    has exactly one node in `queue ++ stack`; nobody else (except the found-null acquirer before its `build_queue`)
+    has one. -/
+theorem c07_resume_once (hwf : c.WF) (hs : Reachable c s) (a : Nat) :
+    s.queue.count a + (nodesOf s.req).count a = (if Listed s a then 1 else 0) ∧
+    (s.pc a = Pc.parked → s.queue.count a + (nodesOf s.req).count a = 1) ∧
+    (s.queue ++ nodesOf s.req).Nodup := by
+  have h := inv_reachable hwf hs
+  refine ⟨h.cnt a, ?_, ?_⟩
+  · intro hp
+    rw [h.cnt a, if_pos (show Listed s a from Or.inl (by simp [hp, isWaiting]))]
+  · rw [List.nodup_iff_count]
+    intro x
+    have := h.cnt x
+    rw [List.count_append]
+    split at this <;> omega
+
+example : Reachable cfgEx sP ∧ sP.pc 1 = Pc.parked ∧ sP.pc 2 = Pc.parked ∧ nodesOf sP.req = [2, 1] ∧ sP.queue = [] :=
+  ⟨reachable_of_run _ runP (by decide), by decide⟩
+example : sA.pc 1 = Pc.parked ∧ nodesOf sA.req = [] ∧ sA.queue = [1, 2] := by decide
+
+/-- **A parked coroutine is resumed only by a hand-over, once**: an activity of another agent `x` leaves it parked
+    unless `x` is the owner handing the lock to the head of the queue, which is `a`; then `a` is at `crit`,
+    owner, granted once more and no longer registered anywhere — so no second hand-over can reach it. -/
+theorem c07_resume_once_step (hwf : c.WF) (hs : Reachable c s) (t x a : Nat) (hx : canRun s x = true)
+    (hp : s.pc a = Pc.parked) :
+    let s' := (agentStep c s t x).1
+    (s'.pc a = Pc.parked ∧ s'.grants a = s.grants a) ∨
+    (grantee s x = some a ∧ s'.pc a = Pc.crit ∧ s'.grants a = s.grants a + 1 ∧ a ∉ s'.queue ∧ a ∉ nodesOf s'.req) := by
+  intro s'
+  have h := inv_reachable hwf hs
+  have hax : a ≠ x := by rintro rfl; simp [canRun, hp] at hx
+  have h' : Inv c s' := inv_step hwf h t hx
+  have hpc := step_pc_other c s t x a hax
+  by_cases hg : grantee s x = some a
+  · right
+    have hk := h.kindP a hp
+    have hpc' : s'.pc a = Pc.crit := by rw [hpc, if_pos ⟨hg, hk⟩]
+    obtain ⟨k, he, rest, hq⟩ := step_handOver c s t x a hg
+    have hsp := handOver_spec c { s with incs := k } t x a rest hq
+    have hc := h'.cnt a
+    rw [if_neg (by simp [Listed, hpc', isWaiting])] at hc
+    refine ⟨hg, hpc', ?_, ?_, ?_⟩
+    · show (agentStep c s t x).1.grants a = _
+      rw [he, hsp.2.2.1]; simp
+    · rw [← List.count_eq_zero]; omega
+    · rw [← List.count_eq_zero]; omega
+  · left
+    have hpc' : s'.pc a = Pc.parked := by rw [hpc, if_neg (fun hh => hg hh.1), hp]
+    refine ⟨hpc', ?_⟩
+    show (agentStep c s t x).1.grants a = _
+    rw [step_grants_other c s t x a hax, if_neg hg]
+
+/- `sA → sB` is the hand-over to 1 (second alternative); the step before it left 1 parked (first alternative) -/
+example : grantee sA 0 = some 1 ∧ sA.pc 1 = Pc.parked ∧ sB.pc 1 = Pc.crit ∧ sB.grants 1 = sA.grants 1 + 1 ∧
+    1 ∉ sB.queue ∧ 1 ∉ nodesOf sB.req := by decide
+example : grantee sP 0 = none ∧ (agentStep cfgEx sP 0 0).1.pc 1 = Pc.parked := by decide
+
+/-- **Never resumed while still suspending (step form).** The publishing CAS of a coroutine behind an owner is the
+    last thing the publishing activity does with the agent: in the same step the agent becomes `parked`, the
+    publishing thread drops it (`cur t = none`), the thread's step ends (`Outcome.op`), the agent is registered once
+    in the stack and its code is not runnable. -/
+theorem c07_not_while_suspending (hwf : c.WF) (hs : Reachable c s) (t a : Nat) (prev : Seen)
+    (hpc : s.pc a = Pc.sub prev) (hseen : seenOf s.req = prev) (hprev : prev ≠ Seen.null) (hk : c.kind a = AKind.coro) :
+    let r := agentStep c s t a
+    r.1.pc a = Pc.parked ∧ r.2.2 = Outcome.op ∧ r.1.cur t = none ∧ canRun r.1 a = false ∧
+    r.1.req = Elem.node a :: s.req ∧ (nodesOf r.1.req).count a = 1 ∧ r.1.queue.count a = 0 := by
+  intro r
+  have hr : r = agentStep c s t a := rfl
+  have hcan : canRun s a = true := by simp [canRun, hpc]
+  have h' : Inv c r.1 := inv_step hwf (inv_reachable hwf hs) t hcan
+  unfold agentStep at hr
+  simp only [hpc, hseen, if_true, hprev, if_false, hk, ne_eq, not_false_eq_true, and_self] at hr
+  have hp : r.1.pc a = Pc.parked := by rw [hr]; simp [setPc]
+  have hc := h'.cnt a
+  rw [if_pos (show Listed r.1 a from Or.inl (by simp [hp, isWaiting]))] at hc
+  have hreq : r.1.req = Elem.node a :: s.req := by rw [hr]
+  have hn : (nodesOf r.1.req).count a ≥ 1 := by rw [hreq]; simp
+  refine ⟨hp, by rw [hr], by rw [hr]; simp, by simp [canRun, hp], hreq, by omega, by omega⟩
+
+/- the publishing CAS of coroutine 1 behind owner 0 (third activity of 1), agent level and OS-thread level -/
+example : (arun cfgEx (init cfgEx) [(0,0), (1,1), (1,1)]).pc 1 = Pc.sub Seen.door ∧
+    (arun cfgEx (init cfgEx) [(0,0), (1,1), (1,1), (1,1)]).pc 1 = Pc.parked := by decide
+example : (trun cfgEx 100 (init cfgEx) [0, 1, 1]).cur 1 = some 1 ∧ (trun cfgEx 100 (init cfgEx) [0, 1, 1, 1]).cur 1 = none ∧
+    (trun cfgEx 100 (init cfgEx) [0, 1, 1, 1]).pc 1 = Pc.parked := by decide
+
+/-- **Never resumed while still suspending (run form).** From a state in which coroutine `a` is parked, along every
+    guarded run in which no activity is a hand-over to `a`, `a` stays parked and *no activity of `a` exists* — on
+    any thread, in particular not on the thread that published it.  Its code runs again only after the owner's
+    hand-over made it `crit` (`c07_resume_once_step`). -/
+theorem c07_no_activity_while_parked (hwf : c.WF) (a : Nat) : ∀ (l : List (Nat × Nat)) (s : State), Reachable c s →
+    s.pc a = Pc.parked → Guarded c s l →
+    (∀ l1 p l2, l = l1 ++ p :: l2 → grantee (arun c s l1) p.2 ≠ some a) →
+    (arun c s l).pc a = Pc.parked ∧ ∀ p ∈ l, p.2 ≠ a := by
+  intro l
+  induction l with
+  | nil => intro s _ hp _ _; exact ⟨hp, by simp⟩
+  | cons p l ih =>
+    intro s hs hp hg hno
+    have hpa : p.2 ≠ a := by rintro rfl; have := hg.1; simp [canRun, hp] at this
+    have hstep := c07_resume_once_step hwf hs p.1 p.2 a hg.1 hp
+    have hp1 : (agentStep c s p.1 p.2).1.pc a = Pc.parked := by
+      rcases hstep with h1 | h1
+      · exact h1.1
+      · exact absurd h1.1 (hno [] p l rfl)
+    have := ih _ (reachable_step hs p.1 hg.1) hp1 hg.2 (fun l1 q l2 e => by
+      have := hno (p :: l1) q l2 (by rw [e]; rfl)
+      simpa [arun] using this)
+    refine ⟨this.1, ?_⟩
+    intro q hq
+    rcases List.mem_cons.1 hq with e | e
+    · rw [e]; exact hpa
+    · exact this.2 q e
+
+
+/- in scenario `runA` coroutine 1 is parked after the 4th activity; none of the following activities is one of 1 -/
+example : (arun cfgEx (init cfgEx) (runA.take 4)).pc 1 = Pc.parked ∧ (∀ p ∈ runA.drop 4, p.2 ≠ 1) ∧ sA.pc 1 = Pc.parked := by
+  decide
+
+/-! ## transfer to the OS-thread level (the level the harness exercises) -/
+
+/-- **C07 holds for every schedule of OS threads**: after any schedule `ts` of enabled threads (executor glue
+    `threadStep`, any fuel) from `init c` at most one agent is an owner, the critical-section counter is at most one,
+    every request has been granted at most once. -/
+theorem c07_thread_level (hwf : c.WF) (fuel : Nat) (ts : List Nat) (hg : TGuarded c fuel (init c) ts) :
+    let s := trun c fuel (init c) ts
+    (∀ a b, Owner s a → Owner s b → a = b) ∧ s.incs ≤ 1 ∧ s.grantReqs.Nodup := by
+  intro s
+  have hs : Reachable c s := trun_init_reachable hwf fuel ts hg
+  exact ⟨c07_mutex hwf hs, c07_mutex_incs hwf hs, c07_grantReqs_nodup hwf hs⟩
+
+example : TGuarded cfgEx 100 (init cfgEx) schedB ∧ Owner (trun cfgEx 100 (init cfgEx) schedB) 1 ∧
+    (trun cfgEx 100 (init cfgEx) schedB).grantReqs = [(0, 0), (1, 0)] := by decide
 
 end Cocls.Mutex
